@@ -108,7 +108,12 @@ findings, see known_findings.json): the model transcribes the code, the oracle k
 `__getitem__/advanced%lazy`: tensordict/_lazy.py:LazyStackedTensorDict.__getitem__ with an integer
 tensor / list / range along the stack dimension returns a lazy stack of the *same* stacked
 tensordicts (or of views of them) — advanced indexing that shares memory. -/
-def knownDeviations : List (String × OpClass) := [("__getitem__/advanced%lazy", .outOfPlace)]
+def knownDeviations : List (String × OpClass) :=
+  [("__getitem__/advanced%lazy", .outOfPlace),
+   -- tensordict/_td.py:_SubTensorDict._index_tensordict returns `self._get_sub_tensordict(index)`: indexing a
+   -- sub-tensordict, with an advanced index too, yields another *window* on the source (entries read as copies,
+   -- but set_/fill_/apply_/index assignment on the result write through to the source)
+   ("__getitem__/advanced%sub", .outOfPlace), ("__getitems__%sub", .outOfPlace)]
 
 /-- class used to model a table row: a known deviation first, else the table -/
 def rowClass (row : String) : Option OpClass :=
